@@ -37,9 +37,9 @@ FIELDS = ["lot", "obasis_name", "run_type", "title", "charge", "spinmult", "geom
 
 
 def plan(tier, seed):
-    n = 400 if tier == "quick" else 8000
+    n = 400 if tier == "quick" else 150000
     cases = [{"kind": "render", "seed": seed, "i": i} for i in range(n)]
-    cases += [{"kind": "errors", "seed": seed, "i": i} for i in range(10 if tier == "quick" else 100)]
+    cases += [{"kind": "errors", "seed": seed, "i": i} for i in range(10 if tier == "quick" else 1000)]
     return cases
 
 
